@@ -680,10 +680,14 @@ class App:
                     ctx.probe('fd:yielding_point')
                 else:
                     ctx.probe('fd:elastic_point')
-                if self.ref.rate and np.any(fs > -margin):
-                    # rate term has an infinite slope at zero plastic increment; keep clear of it
-                    if self.tiny_root(Hs[i], st[i], dt):
+                if self.ref.rate and use[i]:
+                    # With power-law rate sensitivity the energy is only C^m across the yield switch
+                    # (plastic increment ~ overstress^m), so its high derivatives blow up near the switch and an
+                    # 8th-order stencil is useless there even if it does not straddle it: require the stencil to
+                    # span less than a third of its distance to the switch.
+                    if np.min(np.abs(fs)) < 3.0 * (np.max(fs) - np.min(fs)) or self.tiny_root(Hs[i], st[i], dt):
                         use[i] = False
+                        ctx.skip('C10.fd/too_close_to_rate_switch')
         ctx.skip('C10.fd/straddles_yield_switch', int(np.sum(~use)))
         if not np.any(use):
             return
